@@ -26,7 +26,14 @@ struct RecTap {
     log: Mutex<Log>,
     /// the k-th and later consultations of the clock answer "passed"
     expire_at: Option<usize>,
+    /// forced schedule: (eval, nth, filter, is_publish) -> time slot; a trial sleeps until
+    /// start + slot * SLOT before the corresponding shared-state access
+    slots: Option<std::collections::HashMap<(usize, usize, u8, bool), u64>>,
+    start: std::time::Instant,
+    order: Mutex<Vec<(usize, usize, u8, bool)>>,
 }
+
+const SLOT: std::time::Duration = std::time::Duration::from_millis(4);
 
 impl Tap for RecTap {
     fn candidate(&self, eval: usize, nth: usize, _d: &str, image: &PngImage) {
@@ -34,6 +41,19 @@ impl Tap for RecTap {
     }
     fn trial(&self, eval: usize, nth: usize, filter: RowFilter, size: Option<usize>) {
         self.log.lock().unwrap().trials.push((eval, nth, filter as u8, size));
+    }
+    fn sched_point(&self, eval: usize, point: SchedPoint, nth: usize, filter: RowFilter) {
+        let key = (eval, nth, filter as u8, point == SchedPoint::Publish);
+        if let Some(slots) = &self.slots {
+            if let Some(slot) = slots.get(&key) {
+                let target = self.start + SLOT * (*slot as u32 + 1);
+                let now = std::time::Instant::now();
+                if target > now {
+                    std::thread::sleep(target - now);
+                }
+            }
+        }
+        self.order.lock().unwrap().push(key);
     }
     fn skipped(&self, eval: usize, nth: usize, filter: RowFilter) {
         self.log.lock().unwrap().skipped.push((eval, nth, filter as u8));
@@ -92,7 +112,21 @@ fn row_types(img: &PngImage, filtered: &[u8]) -> String {
 
 /// run `f` with a recording tap installed; returns its result and the oracle records
 fn with_log<T>(expire_at: Option<usize>, f: impl FnOnce() -> T) -> (T, String) {
-    let tap = Arc::new(RecTap { log: Mutex::new(Log::default()), expire_at });
+    with_log_sched(expire_at, None, f)
+}
+
+fn with_log_sched<T>(
+    expire_at: Option<usize>,
+    slots: Option<std::collections::HashMap<(usize, usize, u8, bool), u64>>,
+    f: impl FnOnce() -> T,
+) -> (T, String) {
+    let tap = Arc::new(RecTap {
+        log: Mutex::new(Log::default()),
+        expire_at,
+        slots,
+        start: std::time::Instant::now(),
+        order: Mutex::new(Vec::new()),
+    });
     reset_eval_ids();
     set_tap(Some(tap.clone()));
     let r = catch_unwind(AssertUnwindSafe(f));
@@ -133,6 +167,14 @@ fn with_log<T>(expire_at: Option<usize>, f: impl FnOnce() -> T) -> (T, String) {
         out.push_str(&format!(" | K {} {} {}", e, n, f));
     }
     out.push_str(&format!(" | N {}", log.deadline_calls));
+    let order = tap.order.lock().unwrap().clone();
+    if !order.is_empty() {
+        let v: Vec<String> = order
+            .iter()
+            .map(|(e, n, f, p)| format!("{}{}.{}.{}", if *p { "P" } else { "R" }, e, n, f))
+            .collect();
+        out.push_str(&format!(" | O {}", v.join(",")));
+    }
     match r {
         Ok(v) => (v, out),
         Err(p) => std::panic::resume_unwind(p),
@@ -262,6 +304,85 @@ fn run(t: &[&str]) -> String {
             match r {
                 Ok(b) => format!("ok {}{}", hex(&b), rec),
                 Err(e) => format!("err {}{}", err_kind(&e), rec),
+            }
+        }
+        // optthreads <n> <opts> <hex>: optimize_from_memory inside a pool of n threads
+        #[cfg(feature = "parallel")]
+        "optthreads" => {
+            let n: usize = t[1].parse().unwrap();
+            let o = parse_opts(t[2]);
+            let data = unhex(t[3]);
+            let pool = rayon::ThreadPoolBuilder::new().num_threads(n).build().unwrap();
+            match pool.install(|| oxipng::optimize_from_memory(&data, &o)) {
+                Ok(b) => format!("ok {}", hex(&b)),
+                Err(e) => format!("err {}", err_kind(&e)),
+            }
+        }
+        // optnested <n> <copies> <opts> <hex>: a parallel iterator over copies inside a pool of n threads
+        #[cfg(feature = "parallel")]
+        "optnested" => {
+            use rayon::prelude::*;
+            let n: usize = t[1].parse().unwrap();
+            let copies: usize = t[2].parse().unwrap();
+            let o = parse_opts(t[3]);
+            let data = unhex(t[4]);
+            let pool = rayon::ThreadPoolBuilder::new().num_threads(n).build().unwrap();
+            let rs: Vec<String> = pool.install(|| {
+                (0..copies)
+                    .into_par_iter()
+                    .map(|_| match oxipng::optimize_from_memory(&data, &o) {
+                        Ok(b) => format!("ok {}", hex(&b)),
+                        Err(e) => format!("err {}", err_kind(&e)),
+                    })
+                    .collect()
+            });
+            if rs.iter().all(|r| *r == rs[0]) {
+                rs[0].clone()
+            } else {
+                format!("differ {}", rs.join(" / "))
+            }
+        }
+        // evalrun <threads> <deflater-opts> <alpha> <final> <init|-> <filters a+b> <slots|-> <img>...
+        // slots: R<nth>.<f>=<slot>,P<nth>.<f>=<slot>,...
+        #[cfg(feature = "parallel")]
+        "evalrun" => {
+            let n: usize = t[1].parse().unwrap();
+            let o = parse_opts(t[2]);
+            let alpha = t[3] == "1";
+            let fin = t[4] == "1";
+            let init = if t[5] == "-" { None } else { Some(t[5].parse().unwrap()) };
+            let filters: Vec<RowFilter> = t[6].split('+').map(|f| filter_of(f.parse().unwrap())).collect();
+            let slots = if t[7] == "-" {
+                None
+            } else {
+                let mut m = std::collections::HashMap::new();
+                for kv in t[7].split(',') {
+                    let (k, v) = kv.split_once('=').unwrap();
+                    let publish = k.starts_with('P');
+                    let (nth, f) = k[1..].split_once('.').unwrap();
+                    m.insert((0usize, nth.parse().unwrap(), f.parse().unwrap(), publish), v.parse().unwrap());
+                }
+                Some(m)
+            };
+            let images: Vec<PngImage> = t[8..].iter().map(|x| parse_img(x)).collect();
+            let pool = rayon::ThreadPoolBuilder::new().num_threads(n).build().unwrap();
+            let (r, rec) = with_log_sched(None, slots, || {
+                pool.install(|| run_evaluator(images, filters, o.deflate, alpha, fin, init))
+            });
+            match r {
+                Some(c) => format!("some {} {} {} {}{}", c.nth, c.filter as u8, c.estimated_output_size, hex(&c.data), rec),
+                None => format!("none{}", rec),
+            }
+        }
+        // optraw <opts> <max|-> <img>: optimize_raw with records
+        "optraw" => {
+            let o = parse_opts(t[1]);
+            let max = if t[2] == "-" { None } else { Some(t[2].parse().unwrap()) };
+            let img = parse_img(t[3]);
+            let (r, rec) = with_log(None, || optimize_raw(img, &o, max));
+            match r {
+                Some(c) => format!("some {} {} {} {}{}", c.filter as u8, c.estimated_output_size, fmt_img(&c.image), hex(&c.idat), rec),
+                None => format!("none{}", rec),
             }
         }
         // raw <opts> <img> [chunkname:hex ...] [icc:hex]
